@@ -26,7 +26,46 @@ def classify_asan(err):
     return "tool-memory"
 
 
+def classify_valgrind(err):
+    if "== Invalid " in err or "uninitialised" in err or "Invalid free" in err or "Mismatched free" in err:
+        return "tool-memory"
+    if "definitely lost" in err:
+        return "tool-leak"
+    return None
+
+
+MIRI_RUNNER = ["cargo", "+nightly", "miri", "run", "--quiet", "--manifest-path", "{manifest}", "--target-dir", "{target}", "--"]
+MIRI_BUILD = ["cargo", "+nightly", "miri", "run", "--quiet"]
+MIRI_BASE = "-Zmiri-disable-isolation -Zmiri-permissive-provenance"
+
 MODES = {
+    # Miri on pointer-backed storage (Heap, instrumented backend): Stacked Borrows on
+    "miri": dict(build=MIRI_BUILD, build_tail=["--", "configs"], runner=MIRI_RUNNER, target="miri",
+                 env={"RUSTFLAGS": "--cfg any_vec_verif", "MIRIFLAGS": MIRI_BASE},
+                 hv_args=["--tool", "--mem", "heapguard"], classify=classify_miri),
+    # Miri on the inline backends: borrow tracking off (DESIGN.md 1.8), bounds/UAF/init/alignment checks stay on
+    "miri-stack": dict(build=MIRI_BUILD, build_tail=["--", "configs"], runner=MIRI_RUNNER, target="miri",
+                       env={"RUSTFLAGS": "--cfg any_vec_verif", "MIRIFLAGS": MIRI_BASE + " -Zmiri-disable-stacked-borrows -Zmiri-symbolic-alignment-check"},
+                       hv_args=["--tool", "--mem", "stack"], classify=classify_miri),
+    # Miri forced onto the production byte loop of copy_bytes (pointer-free elements only)
+    "miri-realcopy": dict(build=MIRI_BUILD, build_tail=["--", "configs"], runner=MIRI_RUNNER, target="miri-realcopy",
+                          env={"RUSTFLAGS": "--cfg any_vec_verif --cfg any_vec_verif_realcopy", "MIRIFLAGS": MIRI_BASE},
+                          hv_args=["--tool", "--mem", "heapguard", "--pointer-free"], classify=classify_miri),
+    # AddressSanitizer on the production-flags build (full quick families, harness guard zones off)
+    "asan": dict(build=["cargo", "+nightly", "build", "--offline", "--quiet", "--target", "x86_64-unknown-linux-gnu", "--profile", "relflags"],
+                 bin="x86_64-unknown-linux-gnu/relflags/hv", env={"RUSTFLAGS": "-Zsanitizer=address -Cforce-frame-pointers=yes"},
+                 run_env={"ASAN_OPTIONS": "halt_on_error=1:abort_on_error=0:detect_leaks=1:exitcode=98"}, hv_args=["--tool"], classify=classify_asan, optional=True),
+    "asan-noleak": dict(build=["cargo", "+nightly", "build", "--offline", "--quiet", "--target", "x86_64-unknown-linux-gnu", "--profile", "relflags"],
+                 bin="x86_64-unknown-linux-gnu/relflags/hv", target="asan", env={"RUSTFLAGS": "-Zsanitizer=address -Cforce-frame-pointers=yes"},
+                 run_env={"ASAN_OPTIONS": "halt_on_error=1:abort_on_error=0:detect_leaks=0:exitcode=98"}, hv_args=["--tool"], classify=classify_asan, optional=True),
+    # valgrind memcheck on the production-flags binary (sampled)
+    "valgrind": dict(build=CARGO + ["--profile", "relflags"], bin="relflags/hv", target="rel",
+                     runner=["valgrind", "--quiet", "--error-exitcode=97", "--leak-check=full", "--errors-for-leak-kinds=definite", "{bin}"],
+                     hv_args=["--tool", "--sample"], classify=classify_valgrind, setup=False),
+    # leaks are permitted (C06/C07)
+    "miri-noleak": dict(build=MIRI_BUILD, build_tail=["--", "configs"], runner=MIRI_RUNNER, target="miri",
+                        env={"RUSTFLAGS": "--cfg any_vec_verif", "MIRIFLAGS": MIRI_BASE + " -Zmiri-ignore-leaks"},
+                        hv_args=["--tool", "--mem", "heapguard"], classify=classify_miri),
     # production semantics: wrapping arithmetic, no debug_assert, the real copy_bytes loop
     "rel": dict(build=CARGO + ["--profile", "relflags"], bin="relflags/hv"),
     # overflow checks, debug_assert, rustc's pointer checks
@@ -144,7 +183,15 @@ CHECKS = {
         rule="the element / range / clone families and mixed random histories run on the instrumented user-defined backend (guard zones, poison fill, relocate on every capacity change, quarantine of released blocks; "
              "growth policies exact / double / slack3) and on the built-in Heap under the instrumented global allocator with the same features; monitors: guard and quarantine scans after every step, element canaries "
              "(uninitialised/stale bytes seen as elements), build/expand/resize/drop lifecycle log; non-trivial = case that moved at least one element or changed capacity",
-        runs=[dict(mode="rel"), dict(mode="dbg", args=["--sub", "light"])],
+        runs=[dict(mode="rel"), dict(mode="dbg", args=["--sub", "light"]),
+              dict(mode="asan", args=["--sub", "light"], tiers=("quick",)),
+              dict(mode="asan", tiers=("thorough",)),
+              dict(mode="valgrind", args=["--quota", "60"], tiers=("thorough",), timeout=7200),
+              dict(mode="miri", args=["--quota", "3"], tiers=("quick",), timeout=1500),
+              dict(mode="miri-realcopy", args=["--quota", "2"], tiers=("quick",), shards=8, timeout=1500),
+              dict(mode="miri", args=["--quota", "40"], tiers=("thorough",), timeout=7200),
+              dict(mode="miri-realcopy", args=["--quota", "30"], tiers=("thorough",), timeout=7200),
+              dict(mode="miri-stack", args=["--quota", "20"], tiers=("thorough",), timeout=7200)],
         floors={"any": {"evaluations": 20000, "backend_relocations": 10000, "backend_guard_scans": 20000, "realloc(moved)": 1000}},
         tool_kinds=["tool-memory", "crash"],
         assumptions=BEHAVIOUR_ASSUMPTIONS + ["guard zones detect adjacent overruns only; non-adjacent wild writes are left to Miri/ASan modes"],
